@@ -125,6 +125,29 @@ theorem C13_three_sum (f : Fmt) (ok : f.Ok) (x y z : F) (hx : x.Rep f) (hy : y.R
       = x.toInt + y.toInt + z.toInt :=
   threeSum_spec f ok hx hy hz hg
 
+/-- `three_sum2` of the model (the two-output form used by the qd renormalisation paths; not one of the functions the
+    property calls error-free, stated so that its single rounding is explicit): `r0 = RN(z + RN(x + y))` and
+    `r1 = RN(x + y + z − r0)`, i.e. the two `two_sum` residuals are exact and only their sum is rounded — once.
+    Same in-range guard as `C13_three_sum`. -/
+theorem C13_three_sum2 (f : Fmt) (ok : f.Ok) (x y z : F) (hx : x.Rep f) (hy : y.Rep f) (hz : z.Rep f)
+    (hg : 2 * (x.mag + y.mag + z.mag) ≤ maxMag f) :
+    (threeSum2 f x y z).1.Rep f ∧ (threeSum2 f x y z).2.Rep f ∧
+    (threeSum2 f x y z).1.toInt = rnInt f.p (z.toInt + rnInt f.p (x.toInt + y.toInt)) ∧
+    (threeSum2 f x y z).2.toInt
+      = rnInt f.p (x.toInt + y.toInt + z.toInt - (threeSum2 f x y z).1.toInt) :=
+  threeSum2_spec f ok hx hy hz hg
+
+/-- consequence: whenever the exact residual is itself a float (always the case when `x + y` is exact, for
+    instance), `three_sum2` is error-free: `r0 + r1 = x + y + z`. -/
+theorem C13_three_sum2_exact (f : Fmt) (ok : f.Ok) (x y z : F) (hx : x.Rep f) (hy : y.Rep f) (hz : z.Rep f)
+    (hg : 2 * (x.mag + y.mag + z.mag) ≤ maxMag f)
+    (hres : IsFloat f.p (x.toInt + y.toInt + z.toInt - (threeSum2 f x y z).1.toInt)) :
+    (threeSum2 f x y z).1.toInt + (threeSum2 f x y z).2.toInt = x.toInt + y.toInt + z.toInt := by
+  have hp : 1 ≤ f.p := by have := ok.hp2; omega
+  have h := (threeSum2_spec f ok hx hy hz hg).2.2.2
+  rw [rnInt_exact hp hres] at h
+  omega
+
 /-! ### split (Veltkamp) -/
 
 /-- Veltkamp's splitting on integer units — for EVERY precision `p ≥ 1`, every splitting point `s ≥ 1` and every
